@@ -1,10 +1,21 @@
 /-
-  SyModel.Hardlink.Protocol — the hard-link hand-off of `Transferrer::create`
-  (`/repo/src/sync/transfer.rs:87-175`) as a labelled transition system.
+  SyModel.Hardlink.Protocol — the hard-link hand-off `Transferrer::transfer_link_member`
+  (`/repo/src/sync/transfer.rs`, shared by `create` and — since a68466f — `update`) as a labelled
+  transition system.
 
-  One *worker* = one spawned task of `SyncEngine::sync` (`src/sync/mod.rs:697-733`) running
-  `transferrer.create(source, dest)` for one file.  All workers of a run share one
-  `Arc<Mutex<HashMap<u64, InodeState>>>` (`src/sync/mod.rs:665, 694`).
+  One *worker* = one planned task of `SyncEngine::sync` for one file: `transferrer.create(source,
+  dest)` (`Action.create`), `transferrer.update(source, dest)` (`Action.update`), or nothing at all
+  (`Action.skip`: the planner found the destination up to date — the path takes part only as a name
+  in the destination).  All workers of a run share one `Arc<Mutex<HashMap<u64, InodeState>>>`.
+
+  For an update the owner runs `transport.sync_file_with_delta` instead of `copy_file`
+  (`src/transport/local.rs`): below the 10 MiB gate it is `fs::copy` over the existing file — a
+  *write-through*: the destination inode keeps its identity and every name of it shows the new
+  content; at or above the gate (`WorkerCfg.large`) the file is rebuilt under a temp name and renamed
+  over the path (fresh inode). A file whose source has a single name (`linked = false`) first breaks
+  a multiply-linked destination (`break_unshared_hard_link`, 88af04c). A non-owner that finds
+  `Completed(first)`: on creation `create_hardlink(first, dest)`; on update nothing if `dest` already
+  names `first`'s inode, else `transport.remove(dest)` and then the link.
 
   Granularity: one micro-step = one critical section of the map's mutex, one creation / poll of a
   `Notified` future, one `notify_waiters()` call, or one poll of a transport operation.  Micro-step
@@ -39,10 +50,27 @@ inductive Variant where
 /-- The operations of the (mock or local) transport a worker issues. `attrs` stands for
     `write_xattrs` + `write_acls` + `write_bsd_flags` (`transfer.rs:151-158`). -/
 inductive Op where
-  | mkdir   -- `transport.create_dir_all(parent)` inside `copy_file` (`transfer.rs:258-262`)
-  | copy    -- `transport.copy_file` (`transfer.rs:265`)
+  | mkdir   -- `transport.create_dir_all(parent)` inside `copy_file`
+  | copy    -- `transport.copy_file`
   | attrs
-  | link    -- `transport.create_hardlink` (`transfer.rs:106-108`)
+  | link    -- `transport.create_hardlink`
+  | sync    -- `transport.sync_file_with_delta` (owner of an update, or an ordinary update)
+  | remove  -- `transport.remove(dest)` before re-linking an updated member
+  deriving DecidableEq, Repr
+
+/-- What the planner decided for the path. -/
+inductive Action where
+  | create
+  | update
+  | skip
+  deriving DecidableEq, Repr
+
+/-- A destination file: its inode identity and content id. A copy (or temp+rename update) by worker
+    `w` creates the fresh inode `w`; a link makes the path share the inode of its target; files that
+    exist before the run carry inode ids `≥ cfg.n` (`Cfg.OldInodes`). -/
+structure File where
+  ino : Nat
+  content : Nat
   deriving DecidableEq, Repr
 
 inductive Res where
@@ -57,10 +85,17 @@ inductive Res where
 structure WorkerCfg where
   inode : Nat
   linked : Bool
+  action : Action := .create
+  /-- update only: the destination is at or above the delta gate (temp file + rename) -/
+  large : Bool := false
+  /-- the destination file before the run (`none` for a path to be created) -/
+  dst0 : Option File := none
+  /-- yields / failure of `create_dir_all` (create) resp. `remove` (update) -/
   yMkdir : Nat
   yCopy : Nat
   yLink : Nat
   failMkdir : Bool
+  /-- failure of `copy_file` (create) resp. `sync_file_with_delta` (update) -/
   failCopy : Bool
   failMeta : Bool
   failLink : Bool
@@ -88,21 +123,17 @@ inductive Pc where
   | armed (g snap : Nat)           -- repaired only: future created, about to re-check under the lock
   | waiting (g snap : Nat)         -- awaiting the `Notified` future
   | linkOp (p k : Nat)             -- `create_hardlink(dest of p, dest)` in flight, `k` yields left
+  | sameOp (p : Nat)               -- update, found `Completed(p)`: about to compare inodes (`same_inode`)
+  | removeOp (p k : Nat)           -- update: `remove(dest)` in flight before linking to `p`
   | mkdirOp (k : Nat)
   | copyOp (k : Nat)
+  | syncOp (k : Nat)               -- `sync_file_with_delta` in flight
   | metaOp
   | complete                       -- about to insert `Completed(dest)` (l.161-167)
   | notifyOk                       -- about to call `notify_waiters()` (l.168)
   | cleanup (op : Op)              -- repaired only: an operation failed; about to remove the entry
   | failNotify (op : Op)           -- repaired only: about to call `notify_waiters()` and return the error
   | done (r : Res)
-  deriving DecidableEq, Repr
-
-/-- A destination file: its inode identity and content id. A copy by worker `w` creates the fresh
-    inode `w`; a link makes the path share the inode of its target. -/
-structure File where
-  ino : Nat
-  content : Nat
   deriving DecidableEq, Repr
 
 structure State where
@@ -125,9 +156,18 @@ inductive Label where
   | yield (op : Op)                -- the operation returned `Pending` (an await point)
   | opOk (op : Op)
   | opErr (op : Op)
+  | sameInode                      -- update: the path already names the first path's inode
+  | otherInode                     -- update: it does not; it will be removed and re-linked
   | complete
   | remove
   | notify
+  deriving DecidableEq, Repr
+
+/-- What a step does to the destination name space. -/
+inductive DstEff where
+  | keep
+  | set (f : Option File)          -- the worker's own path now names `f` (or nothing)
+  | through (c : Nat)              -- `fs::copy` over the existing file: every name of its inode shows `c`
   deriving DecidableEq, Repr
 
 /-- What one micro-step of worker `w` changes: its own pc, optionally the map entry of its own
@@ -137,7 +177,7 @@ structure Effect where
   pc : Pc
   map : Option (Option Entry) := none
   notify : Bool := false
-  dst : Option (Option File) := none
+  dst : DstEff := .keep
 
 /-- Where a failed operation of a copying worker leads: the pinned code returns through `?`
     (`transfer.rs:149-158`); the repaired code releases the claim first. Workers outside the
@@ -146,6 +186,10 @@ def failPc (cfg : Cfg) (c : WorkerCfg) (op : Op) : Pc :=
   match cfg.variant with
   | .repaired => if c.linked then .cleanup op else .done (.err op)
   | .pinned => .done (.err op)
+
+/-- `has_hard_links(dest)`: another path of the run names the inode `i`. -/
+def sharedIno (n : Nat) (dst : Nat → Option File) (w i : Nat) : Bool :=
+  (List.range n).any fun q => q != w && (match dst q with | some f => f.ino == i | none => false)
 
 /-- One micro-step of worker `w` with static description `c`, as a function of its pc, the map
     entry of its inode, the notify counters and the destination files. `none` = not enabled
@@ -158,11 +202,13 @@ def next (cfg : Cfg) (w : Nat) (c : WorkerCfg) (pc : Pc) (entry : Option Entry)
       match entry with
       | none => some (.readNone, { pc := .sawNone })
       | some (.inProgress g) => some (.readInProgress g, { pc := .sawInProgress g })
-      | some (.completed p) => some (.readCompleted p, { pc := .linkOp p c.yLink })
-    else some (.plain, { pc := .mkdirOp c.yMkdir })
+      | some (.completed p) =>
+        some (.readCompleted p, { pc := if c.action = .update then .sameOp p else .linkOp p c.yLink })
+    else some (.plain, { pc := if c.action = .update then .syncOp c.yCopy else .mkdirOp c.yMkdir })
   | .sawNone =>
     match entry with
-    | none => some (.claimOk, { pc := .mkdirOp c.yMkdir, map := some (some (.inProgress w)) })
+    | none => some (.claimOk, { pc := if c.action = .update then .syncOp c.yCopy else .mkdirOp c.yMkdir,
+                                map := some (some (.inProgress w)) })
     | some _ => some (.claimLost, { pc := .start })
   | .sawInProgress g =>
     match cfg.variant with
@@ -176,7 +222,17 @@ def next (cfg : Cfg) (w : Nat) (c : WorkerCfg) (pc : Pc) (entry : Option Entry)
   | .linkOp p (k + 1) => some (.yield .link, { pc := .linkOp p k })
   | .linkOp p 0 =>
     if c.failLink then some (.opErr .link, { pc := .done (.err .link) })
-    else some (.opOk .link, { pc := .done .ok, dst := some (dst p) })
+    else some (.opOk .link, { pc := .done .ok, dst := .set (dst p) })
+  | .sameOp p =>
+    match dst p, dst w with
+    | some fp, some fw =>
+      if fp.ino = fw.ino then some (.sameInode, { pc := .done .ok })
+      else some (.otherInode, { pc := .removeOp p c.yMkdir })
+    | _, _ => some (.otherInode, { pc := .removeOp p c.yMkdir })
+  | .removeOp p (k + 1) => some (.yield .remove, { pc := .removeOp p k })
+  | .removeOp p 0 =>
+    if c.failMkdir || (dst w).isNone then some (.opErr .remove, { pc := .done (.err .remove) })
+    else some (.opOk .remove, { pc := .linkOp p c.yLink, dst := .set none })
   | .mkdirOp (k + 1) => some (.yield .mkdir, { pc := .mkdirOp k })
   | .mkdirOp 0 =>
     if c.failMkdir then some (.opErr .mkdir, { pc := failPc cfg c .mkdir })
@@ -184,7 +240,17 @@ def next (cfg : Cfg) (w : Nat) (c : WorkerCfg) (pc : Pc) (entry : Option Entry)
   | .copyOp (k + 1) => some (.yield .copy, { pc := .copyOp k })
   | .copyOp 0 =>
     if c.failCopy then some (.opErr .copy, { pc := failPc cfg c .copy })
-    else some (.opOk .copy, { pc := .metaOp, dst := some (some ⟨w, cfg.content c.inode⟩) })
+    else some (.opOk .copy, { pc := .metaOp, dst := .set (some ⟨w, cfg.content c.inode⟩) })
+  | .syncOp (k + 1) => some (.yield .sync, { pc := .syncOp k })
+  | .syncOp 0 =>
+    if c.failCopy then some (.opErr .sync, { pc := failPc cfg c .sync })
+    else
+      match dst w with
+      | none => some (.opOk .sync, { pc := .metaOp, dst := .set (some ⟨w, cfg.content c.inode⟩) })
+      | some fw =>
+        if c.large || (!c.linked && sharedIno cfg.n dst w fw.ino) then
+          some (.opOk .sync, { pc := .metaOp, dst := .set (some ⟨w, cfg.content c.inode⟩) })
+        else some (.opOk .sync, { pc := .metaOp, dst := .through (cfg.content c.inode) })
   | .metaOp =>
     if c.failMeta then some (.opErr .attrs, { pc := failPc cfg c .attrs })
     else some (.opOk .attrs, { pc := if c.linked then .complete else .done .ok })
@@ -194,6 +260,13 @@ def next (cfg : Cfg) (w : Nat) (c : WorkerCfg) (pc : Pc) (entry : Option Entry)
   | .failNotify op => some (.notify, { pc := .done (.err op), notify := true })
   | .done _ => none
 
+/-- `fs::copy` over the existing file of path `w`: the inode keeps its identity and every path that
+    names it shows the content `c`. -/
+def writeThrough (d : Nat → Option File) (w c : Nat) : Nat → Option File := fun v =>
+  match d w, d v with
+  | some fw, some fv => if fv.ino = fw.ino then some ⟨fv.ino, c⟩ else some fv
+  | _, x => x
+
 def State.apply (s : State) (w inode : Nat) (e : Effect) : State where
   pc := fun v => if v = w then e.pc else s.pc v
   map := match e.map with
@@ -201,8 +274,9 @@ def State.apply (s : State) (w inode : Nat) (e : Effect) : State where
     | some m => fun j => if j = inode then m else s.map j
   calls := if e.notify then fun v => if v = w then s.calls v + 1 else s.calls v else s.calls
   dst := match e.dst with
-    | none => s.dst
-    | some d => fun v => if v = w then d else s.dst v
+    | .keep => s.dst
+    | .set d => fun v => if v = w then d else s.dst v
+    | .through c => writeThrough s.dst w c
 
 /-- The labelled transition relation as a partial function: `step cfg s w = some (l, s')` iff worker
     `w` is enabled in `s`, its micro-step is labelled `l` and leads to `s'`. -/
@@ -218,11 +292,12 @@ def enabled (cfg : Cfg) (s : State) (w : Nat) : Bool := (step cfg s w).isSome
 /-- The enabled set, as a list of worker ids. -/
 def enabledSet (cfg : Cfg) (s : State) : List Nat := (List.range cfg.n).filter (enabled cfg s)
 
-def init : State where
-  pc := fun _ => .start
+/-- Initial state: skipped paths have nothing to do; every path has its pre-run destination file. -/
+def init (cfg : Cfg) : State where
+  pc := fun w => if (cfg.worker w).action = .skip then .done .ok else .start
   map := fun _ => none
   calls := fun _ => 0
-  dst := fun _ => none
+  dst := fun w => if w < cfg.n then (cfg.worker w).dst0 else none
 
 def Pc.isDone : Pc → Bool
   | .done _ => true
@@ -242,7 +317,7 @@ inductive Exec (cfg : Cfg) : State → List Nat → State → Prop where
   | cons {s s' s'' : State} {w : Nat} {l : Label} {ws : List Nat} :
       step cfg s w = some (l, s') → Exec cfg s' ws s'' → Exec cfg s (w :: ws) s''
 
-def Reachable (cfg : Cfg) (s : State) : Prop := ∃ sched, Exec cfg init sched s
+def Reachable (cfg : Cfg) (s : State) : Prop := ∃ sched, Exec cfg (init cfg) sched s
 
 /-- Executable run of a micro-step schedule; stops (returning the remaining schedule) at the first
     worker that is not enabled. -/
@@ -260,12 +335,12 @@ def runMicro (cfg : Cfg) : State → List Nat → State × List Label × List Na
 /-- remaining *owner events* (claim, entry change, notify) of a worker at this pc. -/
 def Pc.events : Pc → Nat
   | .start | .sawNone | .sawInProgress _ | .armed _ _ | .waiting _ _ => 3
-  | .mkdirOp _ | .copyOp _ | .metaOp | .complete | .cleanup _ => 2
+  | .mkdirOp _ | .copyOp _ | .syncOp _ | .metaOp | .complete | .cleanup _ => 2
   | .notifyOk | .failNotify _ => 1
-  | .linkOp _ _ | .done _ => 0
+  | .linkOp _ _ | .sameOp _ | .removeOp _ _ | .done _ => 0
 
 /-- rank of the loop phase of a worker: more than everything it can still do after leaving it. -/
-def WorkerCfg.loopBase (c : WorkerCfg) : Nat := 6 + c.yMkdir + c.yCopy + c.yLink
+def WorkerCfg.loopBase (c : WorkerCfg) : Nat := 8 + c.yMkdir + c.yCopy + c.yLink
 
 /-- remaining own micro-steps until the next blocking point, assuming nobody else moves. -/
 def Pc.local (c : WorkerCfg) : Pc → Nat
@@ -275,8 +350,11 @@ def Pc.local (c : WorkerCfg) : Pc → Nat
   | .armed _ _ => c.loopBase + 1
   | .waiting _ _ => c.loopBase
   | .linkOp _ k => 1 + k
+  | .removeOp _ k => 2 + c.yLink + k
+  | .sameOp _ => 3 + c.yLink + c.yMkdir
   | .mkdirOp k => 5 + c.yCopy + k
   | .copyOp k => 4 + k
+  | .syncOp k => 4 + k
   | .metaOp => 3
   | .complete => 2
   | .cleanup _ => 2
